@@ -2293,6 +2293,11 @@ func rulePIDXRPC(p *Program, r *Reporter) {
 				case *ssa.IndexAddr:
 					if alias[x.X] {
 						ok, _, why := checkIndex(fc, x.X, x.Index, x)
+						if k, isC := constInt(x.Index); !ok && isC {
+							if ok2, why2 := lenCheckedByHelper(alias, k+1, x); ok2 {
+								ok, why = true, why2
+							}
+						}
 						r.Ob(id, funcName(fn), "request parameter "+opndStr(x), x.Pos(), ok, true,
 							ifs(ok, why, "the request's parameter list is indexed without a test of its length: a request with fewer parameters panics in the handler, and rpc2 does not recover ("+why+")"))
 					}
@@ -2511,4 +2516,90 @@ func rulePPOLL(p *Program, r *Reporter) {
 	if n < 1 {
 		r.Anchor(id, "no polling loop (time.Sleep inside a loop) on the transact path")
 	}
+}
+
+
+// lenCheckedByHelper: the instruction is dominated by the "no error" edge of a call
+// g(..., len(list), ..., K, ...) to a helper of the repository whose every return of a
+// nil error has established that the parameter receiving len(list) is not below the
+// parameter receiving the constant K (requireArgs("monitor", len(args), 3)), K >= need.
+func lenCheckedByHelper(list map[ssa.Value]bool, need int64, at ssa.Instruction) (bool, string) {
+	for _, f := range factsAt(at.Block()) {
+		cond, truth := normFact(f)
+		bo, ok := cond.(*ssa.BinOp)
+		if !ok || (bo.Op != token.EQL && bo.Op != token.NEQ) {
+			continue
+		}
+		var subj ssa.Value
+		if isNilConst(bo.Y) {
+			subj = bo.X
+		} else if isNilConst(bo.X) {
+			subj = bo.Y
+		}
+		call, isCall := subj.(*ssa.Call)
+		if !isCall || (bo.Op == token.EQL) != truth { // need: call result == nil
+			continue
+		}
+		g := call.Call.StaticCallee()
+		if g == nil || g.Blocks == nil || call.Call.IsInvoke() || !types.Identical(call.Type(), types.Universe.Lookup("error").Type()) {
+			continue
+		}
+		li, ki := -1, -1
+		var k int64
+		for i, a := range call.Call.Args {
+			if lx, isLen := lenOperand(a); isLen && list[lx] {
+				li = i
+			}
+			if c, isC := constInt(a); isC && c >= need {
+				ki, k = i, c
+			}
+		}
+		if li < 0 || ki < 0 || li >= len(g.Params) || ki >= len(g.Params) {
+			continue
+		}
+		pl, pk := g.Params[li], g.Params[ki]
+		all, n := true, 0
+		for _, b := range g.Blocks {
+			ret, isRet := b.Instrs[len(b.Instrs)-1].(*ssa.Return)
+			if !isRet || isRecoverBlock(b) || len(ret.Results) != 1 || !isNilConst(retValue(ret, 0)) {
+				continue
+			}
+			n++
+			est := false
+			for _, gf := range factsAt(b) {
+				c2, t2 := normFact(gf)
+				b2, ok := c2.(*ssa.BinOp)
+				if !ok {
+					continue
+				}
+				x, y, op := b2.X, b2.Y, b2.Op
+				if x == ssa.Value(pk) && y == ssa.Value(pl) {
+					x, y = y, x
+					switch op {
+					case token.LSS:
+						op = token.GTR
+					case token.GTR:
+						op = token.LSS
+					case token.LEQ:
+						op = token.GEQ
+					case token.GEQ:
+						op = token.LEQ
+					}
+				}
+				if x != ssa.Value(pl) || y != ssa.Value(pk) {
+					continue
+				}
+				if (op == token.LSS && !t2) || (op == token.GEQ && t2) {
+					est = true
+				}
+			}
+			if !est {
+				all = false
+			}
+		}
+		if all && n > 0 {
+			return true, fmt.Sprintf("dominated by the no-error edge of %s, which only returns nil when the length it is given is at least %d", funcName(g), k)
+		}
+	}
+	return false, ""
 }
